@@ -209,6 +209,9 @@ func lifeOps0(w *world.World, ctx sdk.Context, o LifeOpts) []engine.Op {
 							if o.Update {
 								cid := meta.Commit + "|" + commitName(nextOrder)
 								out = append(out, Tx("update", "update("+args+")", StoreMsg(w, StoreP{Signer: world.O, Relayer: world.G, Gateway: world.G, DataId: d, CommitId: cid, Size: sz, Replica: rep, Duration: dur, Timeout: to, Cid: world.Cid2})))
+								if o.Pending {
+									out = append(out, Tx("update-pending", "update-pending("+args+")", StoreMsg(w, StoreP{Signer: world.O, Relayer: world.T, Gateway: world.G, DataId: d, CommitId: cid, Size: sz, Replica: rep, Duration: dur, Timeout: to, Cid: world.Cid2})))
+								}
 							}
 							if o.BadBases && sz == o.Sizes[0] && rep == o.Replicas[0] && dur == o.Durations[0] && to == o.Timeouts[0] {
 								bases := map[string]string{"empty": "", "substring": meta.Commit[:len(meta.Commit)/2], "triple": meta.Commit + "|x"}
